@@ -18,6 +18,20 @@ from onl.utils.timer import Timer
 from vlib.util import bits, unbits, run_driver, split_cases, quiet
 
 EXTRA_MODULES = ('OnlVerif.Props.C19K',)
+BRIDGES = ['C19.timer_init_generated_eq_model', 'C19.timer_run_generated_eq_model', 'C19.timer_stop_generated_eq_model',
+           'C19.timer_restart_generated_eq_model']
+_PREP = {}
+
+
+def prepare(ctx):
+    """regenerate lean/OnlVerif/Generated/Timer19.lean from the source under $ONL_REPO (a translator failure or a bridge
+    theorem that no longer compiles is a broken obligation)"""
+    from py2lean import translate, more
+    _PREP['translated'] = more.TRANSLATED['Timer19']
+    _PREP['rewritten'] = translate.regenerate_all(only=('Timer19',))
+    _PREP['diff_vs_pinned'] = translate.diff_vs_pinned('Timer19')
+
+
 ASSUMPTIONS = [
     'timeouts (constructor and restart) are positive finite numbers; other constructor values are refused with ValueError',
     'user callbacks do not raise; they may call stop()/restart(tau) on their own timer',
